@@ -815,6 +815,172 @@ def check_C20(run):
                                'Endian.tla; distinct = (type, operation) pairs')
 
 
+# ===========================================================================
+# C12 / C13 / C15b: object life cycles (Lifetimes.tla)
+
+LIFE_CFG = 'INVARIANT HandleInv\nINVARIANT ShapeInv\nPROPERTY Admitted'
+
+
+def life_behaviours(run, machine, depth_emit, depth_mc):
+    """TLC: model-check the machine to depth_mc (no emission), emit every history of length depth_emit."""
+    vf.tlc_generate(run, 'Gen_Life', {"Machine": machine, "Depth": depth_mc, "Emitting": False}, extra_cfg=LIFE_CFG,
+                    workers=8, label='mc')
+    return vf.tlc_generate(run, 'Gen_Life', {"Machine": machine, "Depth": depth_emit, "Emitting": True}, extra_cfg=LIFE_CFG)
+
+
+def random_life_ops(rng, machine, n):
+    ops = []
+    nres = [0]
+    for _ in range(n):
+        o, p = rng.randrange(3), rng.randrange(3)
+        x = rng.choice([1, 2, 3])
+        t = rng.random() < 0.15
+        if machine == "variant":
+            name = rng.choice(["new_empty", "new_ev", "new_a", "new_b", "new_c", "new_copy", "new_move", "assign_copy", "assign_move",
+                               "assign_a", "assign_b", "assign_c", "assign_ev", "become", "visit", "destroy", "new_a", "assign_b"])
+            op = {"op": name, "o": o}
+            if name in ("new_a", "new_b", "new_c", "assign_a", "assign_b", "assign_c"):
+                op.update({"val": x, "throw": t})
+            elif name in ("new_copy", "assign_copy"):
+                op.update({"p": p, "throw": t})
+            elif name in ("new_move", "assign_move"):
+                op.update({"p": p})
+            elif name == "become":
+                op["idx"] = rng.choice([-2, -1, 0, 1, 2, 7])
+        elif machine == "uhandle":
+            name = rng.choice(["new_empty", "new_res", "new_res", "new_move", "assign_move", "assign_move", "release", "close", "destroy"])
+            op = {"op": name, "o": o}
+            if name == "new_res" and nres[0] >= 8:
+                name = "close"           # every resource id is used at most once per history
+                op = {"op": name, "o": o}
+            if name == "new_res":
+                op["r"] = nres[0]
+                nres[0] += 1
+            elif name in ("new_move", "assign_move"):
+                op["p"] = p
+        else:
+            names = ["new_empty", "new_val", "new_rval", "new_copy", "new_move", "assign_copy", "assign_move", "assign_val",
+                     "assign_rval", "clear", "take", "destroy", "new_val", "assign_val"]
+            if machine == "result":
+                names += ["new_err", "assign_err", "assign_err"]
+            name = rng.choice(names)
+            op = {"op": name, "o": o}
+            if name in ("new_val", "assign_val", "new_rval", "assign_rval"):
+                op["val"] = x
+            elif name in ("new_err", "assign_err"):
+                op["val"] = rng.choice([0, 1, 2])
+            elif name in ("new_copy", "assign_copy", "new_move", "assign_move"):
+                op["p"] = p
+        ops.append(op)
+    return ops
+
+
+def key_obj(prop):
+    def fn(ev, why, cmd=None):
+        if ev.get("e") in ("UB", "Crash", "Exc", "Timeout", "BadCmd"):
+            return abnormal_key(prop, ev, why, cmd)
+        return '%s|%s|%s|%s' % (prop, ev.get("e"), ev.get("machine", ""), ','.join(why)), '%s history on %s violates: %s (command %s)' % (
+            ev.get("e"), ev.get("machine", ""), ', '.join(why), ev.get("idx"))
+    return fn
+
+
+def run_obj(run, prop, cmds, flavour):
+    exe, _ = vf.get_exe(run, flavour)
+    trace = vf.exec_commands(run, exe, cmds, prop.lower() + flavour)
+    rejected = vf.tlc_validate(run, 'TrObj', 'TrCodec.cfg', trace, {"PROP": prop})
+    add_rejections(run, rejected, key_obj(prop), index_cmds(cmds))
+
+
+def life_cmds(run, machines, thorough, rng):
+    cmds = []
+    for spec_machine, exec_machines in machines:
+        hists = life_behaviours(run, spec_machine, 3, 4 if thorough else 3)
+        for em in exec_machines:
+            for h in hists:
+                cmds.append({"c": "obj", "machine": em, "ops": h})
+            for _ in range(3000 if thorough else 400):
+                cmds.append({"c": "obj", "machine": em, "ops": random_life_ops(rng, spec_machine, rng.choice([20, 50, 120] if thorough else [20, 40]))})
+    return cmds
+
+
+def check_C12(run):
+    thorough = run.tier == 'thorough'
+    rng = random.Random(run.seed)
+    cmds = life_cmds(run, [("variant", ["variant"])], thorough, rng)
+    cmds = with_resets(cmds, 100)
+    run.samples = [c for c in cmds if c.get("c") == "obj"][:2]
+    run.distinct = set(vf.digest(c) for c in cmds)
+    run_obj(run, 'C12', cmds, 'asan')
+    return vf.finish(run, rule='every applicable Variant operation history of length 3 over 2 objects (TLC-generated from '
+                               'Lifetimes.tla: construct empty/element/converting/copy/move, copy/move/converting/EmptyVariant '
+                               'assignment incl. self, Become -2..2, Visit, destroy, throwing element constructors) plus random '
+                               'histories of length 20-120 over 3 objects, replayed on nop::Variant<A,B> with lifetime-tracking '
+                               'elements under ASan; distinct = distinct histories')
+
+
+def check_C13(run):
+    thorough = run.tier == 'thorough'
+    rng = random.Random(run.seed)
+    cmds = [{"c": "cmp"}, {"c": "msg"}]
+    cmds += life_cmds(run, [("optional", ["optional", "optional_int", "entry"]), ("result", ["result"])], thorough, rng)
+    cmds = with_resets(cmds, 100)
+    run.samples = cmds[1:3] + [c for c in cmds if c.get("machine") == "result"][:1]
+    run.distinct = set(vf.digest(c) for c in cmds)
+    run_obj(run, 'C13', cmds, 'asan')
+    return vf.finish(run, rule='every applicable operation history of length 3 over 2 objects for Optional<Tracked>, '
+                               'Optional<int>, Entry<Tracked,5> and Result<E,Tracked> (TLC-generated) plus random histories; all 18 '
+                               'Optional comparison operators on all operand states {empty,1,2}^2; GetErrorMessage for codes '
+                               '0..19; ASan; distinct = distinct histories')
+
+
+def check_C15(run):
+    thorough = run.tier == 'thorough'
+    rng = random.Random(run.seed)
+    # (b) ownership histories of UniqueHandle
+    cmds_b = with_resets(life_cmds(run, [("uhandle", ["uhandle"])], thorough, rng), 100)
+    run_obj(run, 'C15', cmds_b, 'asan')
+    # (a) handles inside values: out-of-band channel
+    exe, types_path = vf.get_exe(run, 'plain')
+    types = load_types(types_path)
+    groups = []
+    n = 0
+    gen = vals.Gen(seed=run.seed, nrandom=3 if thorough else 1)
+    for tid, S in types.items():
+        if not has_kind(S, ("hnd",)):
+            continue
+        for v in gen.values(S):
+            for rs in range(len(REF_SETS) if thorough else 2):
+                refs = refs_for(n + rs) + [word(1000 + i, 8) for i in range(140)]
+                wk = ["pedantic", "sstream", {"bounded": "pedantic", "limit": BIGCAP}][n % 3]
+                w = {"c": "w", "wk": wk, "cap": BIGCAP, "items": [{"tid": tid, "v": v}, {"tid": tid, "v": v}], "refs": refs, "nolog": 1}
+                table = {}
+                for i, r in enumerate(refs):
+                    iv = int.from_bytes(bytes(r), 'little', signed=True)
+                    if iv != -1:
+                        table[str(iv)] = (i * 3 + 1) % 2000000000
+                rk = ["pedantic", "sstream", {"bounded": "buffer", "limit": BIGCAP}, "fstream"][n % 4]
+                g = [w, {"c": "r", "rk": rk, "src": "last", "items": [{"tid": tid}, {"tid": tid}], "handles": table, "nolog": 1}]
+                # corrupted type tags / references: every leading byte position x hostile values
+                nb = min(20, max(2, len(json.dumps(v)) // 3))
+                for pos in range(nb):
+                    for hb in ((0x00, 0x01, 0x7f, 0x80, 0x81, 0x84, 0x87, 0xb7, 0xff) if thorough or pos < 6 else (0x01, 0x87)):
+                        g.append({"c": "r", "rk": rk, "src": "last", "mut": [{"op": "set", "at": pos, "val": hb}],
+                                  "items": [{"tid": tid}], "handles": table, "nolog": 1, "tag": {"cat": True}})
+                # an unresolvable reference: empty table
+                g.append({"c": "r", "rk": rk, "src": "last", "items": [{"tid": tid}], "handles": {}, "nolog": 1, "tag": {"cat": True}})
+                groups.append(g)
+                run.distinct.add((tid, vf.digest(v), rs))
+                n += 1
+    cmds = with_group_resets(groups, 4)
+    run.samples = groups[0][:3] + cmds_b[1:2]
+    run_codec(run, 'C15', cmds)
+    return vf.finish(run, rule='(a) every handle-bearing pool type (struct member, vector, optional, variant, tuple, table entry) x '
+                               'values incl. empty handles x reference sets {-1,0,63..,2^31,2^63-1,negative} returned by the writer: '
+                               'push order/multiplicity and encoded references per Wire.tla, reads with corrupted type tags / '
+                               'references / unresolvable references per Dec; (b) every applicable UniqueHandle ownership history of '
+                               'length 3 (TLC-generated) plus random histories with a counting policy; distinct = distinct cases')
+
+
 def replay(run, path):
     with open(path) as f:
         rp = json.load(f)
